@@ -4,6 +4,8 @@
 #include <AIToolbox/Utils/Probability.hpp>
 #include <AIToolbox/Bandit/Policies/QSoftmaxPolicy.hpp>
 #include <AIToolbox/MDP/Policies/QSoftmaxPolicy.hpp>
+#include <AIToolbox/MDP/Policies/QGreedyPolicy.hpp>
+#include <AIToolbox/MDP/Policies/EpsilonPolicy.hpp>
 #include "vio.hpp"
 
 using namespace AIToolbox;
@@ -30,7 +32,33 @@ void dumpDraws(vio::Out & o, const RandomEngine & e, size_t A) {
 }
 }
 
-void c09_softmax(const std::string &, vio::Cursor & c, vio::Out & o) {
+// msm: multi-state Q-table whose rows sit at very different offsets (row r = base row + offset_r):
+// MDP::QSoftmaxPolicy, MDP::QGreedyPolicy and MDP::EpsilonPolicy tables against their per-state queries
+static void c09_multistate(vio::Cursor & c, vio::Out & o) {
+    const double T = c.nextDouble();
+    const size_t S = c.nextSize(), A = c.nextSize();
+    MDP::QFunction q(S, A);
+    for (size_t s = 0; s < S; ++s) for (size_t a = 0; a < A; ++a) q(s, a) = c.nextDouble();
+    const std::vector<double> offs = c.nextDoubles();
+    for (size_t s = 0; s < S; ++s) q.row(s).array() += offs[s];
+    const double eps = c.nextDouble();
+    const unsigned seed = (unsigned) c.nextSize();
+    Seeder::setRootSeed(seed);
+    MSoft sm(q, T);
+    MDP::QGreedyPolicy g(q);
+    MDP::EpsilonPolicy e(g, eps);
+    auto dumpM = [&](const auto & pol) {
+        const Matrix2D m = pol.getPolicy();
+        std::vector<double> t, pr;
+        for (size_t s = 0; s < S; ++s) for (size_t a = 0; a < A; ++a) { t.push_back(m(s, a)); pr.push_back(pol.getActionProbability(s, a)); }
+        o.list(t); o.list(pr);
+    };
+    dumpM(sm); dumpM(g); dumpM(e);
+    for (size_t s = 0; s < S; ++s) { dumpDraws(o, sm.eng(), A); o << sm.sampleAction(s); }
+}
+
+void c09_softmax(const std::string & kind, vio::Cursor & c, vio::Out & o) {
+    if (kind == "msm") { c09_multistate(c, o); return; }
     c.next();                                       // exactness flag (driver only)
     const double T = c.nextDouble();
     const std::vector<double> tsets = c.nextDoubles();   // setTemperature calls made after construction
